@@ -59,6 +59,13 @@ def run(ctx):
                                   (hc, hk, ti, mfcheck.pproj(exp)[:8], mfcheck.pproj(obs)[:8]),
                                   {"scenario": s, "tick": ti, "combo": [hc, hk], "expected": exp, "observed": obs, "unit_s": mfcheck.UNIT})
                     break
+    # unbounded: the arithmetic core of Plan for ALL integers from, to and every positive max step (Apalache / SMT, about 5 s)
+    import apalache
+    apa = apalache.check_inv("PlanProof", "PlanArithmetic")
+    if apa["outcome"] == "Error":
+        ctx.violation("spec-theorem:PlanArithmetic", "Apalache found a counterexample to the plan arithmetic", apa)
+    elif not apa["ok"]:
+        ctx.notes.append("Apalache run inconclusive: %s" % apa["tail"][-200:])
     dec = decimal_part(ctx)
     if not ctx.quick:
         dec["repository_tests"] = repo_tests_part(ctx)      # about a minute: thorough tier only
@@ -72,7 +79,8 @@ def run(ctx):
            "exhaustive": bool(stats.get("exhaustive_replayed_all")),
            "exhaustive_scope": "MC_MF_E1: every single tick from 7 start times x 7 output times x <=2 readings x max_dt in {1,2,3} units; "
                                "PlanTheorem (direction, bound, sum, emptiness) checked by TLC for all from,to in -40..40 and 8 max_dt values",
-           "tlc_runs": stats["tlc_runs"], "decimal_grid": dec}
+           "tlc_runs": stats["tlc_runs"], "decimal_grid": dec,
+           "apalache_plan_arithmetic_all_integers": {k: apa[k] for k in ("ok", "outcome", "wall_s")}}
     return finish(ctx, LEVEL, cov, ASSUME)
 
 
@@ -85,7 +93,7 @@ def decimal_part(ctx):
     import workers
     import mfcpp
     unit = 0.01
-    r = tlc.run("MC_MF_dec", mode="sim", workers=8, num=(40 if ctx.quick else 1500), depth=40, seed=ctx.seed + 5, timeout=900)
+    r = tlc.run("MC_MF_dec", mode="sim", workers=8, num=(24 if ctx.quick else 1500), depth=40, seed=ctx.seed + 5, timeout=900)
     if r.violation:
         ctx.violation("spec-invariant", r.violation[:500], {})
     scns = r.printed
@@ -124,34 +132,55 @@ def decimal_part(ctx):
                 evs += te
             traces.append(evs)
             meta.append(("cpp[%d%d]" % (hc, hk), s))
-    # long single moves (tens of thousands of sub-steps: rounding must not accumulate), both runtimes
-    moves = [(10, 0, 360000, False), (5, 0, -720000 // (2 if ctx.quick else 1), True), (10, 123, 250007, True)]
+    # long single moves (tens of thousands of sub-steps: rounding must not accumulate), both runtimes; times in seconds
+    def family(unit_, spec_):
+        return [(n_, a_ * 1.0, b_ * 1.0, c_) for (n_, a_, b_, c_) in spec_], unit_
+    long_moves = [(10, 0.0, 3600.0, False), (5, 0.0, -7200.0 / (2 if ctx.quick else 1), True), (10, 1.23, 2500.07, True)]
     if not ctx.quick:
-        moves += [(1, 0, 100000, False), (30, -100000, 260011, True), (5, 777, -300000, False)]
-    res = workers.run_tasks([("tasks", "mf_long_batch", ([m], unit), 1200) for m in moves], procs=ctx.cores)
-    for m, (status, outs) in zip(moves, res):
-        if status != "ok":
-            raise RuntimeError(outs)
-        traces.append(outs[0])
-        meta.append(("py-long", {"max": m[0], "t0": m[1], "out": m[2], "hasControl": m[3]}))
+        long_moves += [(1, 0.0, 1000.0, False), (30, -1000.0, 2600.11, True), (5, 7.77, -3000.0, False)]
+    # moves that fall short of / exceed a whole number of LARGE steps (max_dt_sec 0.5 .. 5 s) by less than, about, and more than the
+    # 1e-9 s slack: the quotient (target - start)/max_dt sits within rounding distance of an integer
+    near = []
+    rnd_ = __import__("random").Random(ctx.seed + 77)
+    for maxn in (1, 3, 4, 10):                       # x 0.5 s
+        mx = maxn * 0.5
+        for start in (0.0, 10.0, -3.25):
+            for kmul in (1, 2, 7):
+                for delta in (0.0, 1e-10, 5e-10, 9e-10, 2e-9, 1e-8, 1e-10 * mx, 9e-10 * mx):
+                    for sgn in (1.0, -1.0):
+                        for dirn in (1.0, -1.0):
+                            near.append((maxn, start, start + dirn * (kmul * mx + sgn * delta), bool(kmul % 2)))
+    if ctx.quick:
+        near = rnd_.sample(near, 96)
+    fams = [(long_moves, 0.01, "long"), (near, 0.5, "near-multiple")]
     import cppbuild
-    long_jobs = [{"sources": ["/verif/cxx/mf_long.cpp"], "out": os.path.join(ctx.work, "mf_long_%d%d" % (hc, hk)),
-                  "defines": ["HAS_CONTROL=%d" % hc, "HAS_CALIBRATION=%d" % hk, "UNIT_SCALE=0.01"], "_c": (hc, hk)} for hc, hk in ((0, 0), (1, 1), (0, 1), (1, 0))]
-    for job, (okb, errb) in zip(long_jobs, cppbuild.compile_many(long_jobs)):
-        hc, hk = job["_c"]
-        if not okb:
-            ctx.violation("cpp:build:control=%d,calibration=%d" % (hc, hk), errb[-400:], {})
-            continue
-        sel = [m for m in moves if bool(m[3]) == bool(hc)]
-        rc, so, se = cppbuild.run_exe(job["out"], "".join("%d %d %d\n" % (m[0], m[1], m[2]) for m in sel), timeout=600)
-        blocks = so.split("MOVE\n")[1:]
-        for m, blk in zip(sel, blocks):
-            dts = [float.fromhex(x) for x in blk.split("END")[0].split()]
-            ev = mfcheck.travel_events([("P", d, 0) for d in dts], m[1] * unit, [], 0, m[2] * unit, m[0] * unit)
-            for e in ev:
-                e["dts"] = e["dts"][:5] + ["..."] + e["dts"][-3:] if len(e["dts"]) > 10 else e["dts"]
-            traces.append(ev)
-            meta.append(("cpp-long[%d%d]" % (hc, hk), {"max": m[0], "t0": m[1], "out": m[2], "hasControl": m[3]}))
+    for moves, unit_, tag in fams:
+        chunks_ = [moves[i::ctx.cores] for i in range(ctx.cores)]
+        chunks_ = [c for c in chunks_ if c]
+        res = workers.run_tasks([("tasks", "mf_long_batch", (c, unit_), 1200) for c in chunks_], procs=ctx.cores)
+        for c, (status, outs) in zip(chunks_, res):
+            if status != "ok":
+                raise RuntimeError(outs)
+            for m, ev in zip(c, outs):
+                traces.append(ev)
+                meta.append(("py-" + tag, {"max": m[0], "t0": m[1] / unit_, "out": m[2] / unit_, "hasControl": m[3], "unit": unit_}))
+        long_jobs = [{"sources": ["/verif/cxx/mf_long.cpp"], "out": os.path.join(ctx.work, "mf_%s_%d%d" % (tag, hc, hk)),
+                      "defines": ["HAS_CONTROL=%d" % hc, "HAS_CALIBRATION=%d" % hk, "UNIT_SCALE=%r" % unit_], "_c": (hc, hk)} for hc, hk in ((0, 0), (1, 1), (0, 1), (1, 0))]
+        for job, (okb, errb) in zip(long_jobs, cppbuild.compile_many(long_jobs)):
+            hc, hk = job["_c"]
+            if not okb:
+                ctx.violation("cpp:build:control=%d,calibration=%d" % (hc, hk), errb[-400:], {})
+                continue
+            sel = [m for m in moves if bool(m[3]) == bool(hc)]
+            rc, so, se = cppbuild.run_exe(job["out"], "".join("%d %s %s\n" % (m[0], float(m[1]).hex(), float(m[2]).hex()) for m in sel), timeout=600)
+            blocks = so.split("MOVE\n")[1:]
+            for m, blk in zip(sel, blocks):
+                dts = [float.fromhex(x) for x in blk.split("END")[0].split()]
+                ev = mfcheck.travel_events([("P", d, 0) for d in dts], m[1], [], 0, m[2], m[0] * unit_)
+                for e in ev:
+                    e["dts"] = e["dts"][:5] + ["..."] + e["dts"][-3:] if len(e["dts"]) > 10 else e["dts"]
+                traces.append(ev)
+                meta.append(("cpp-%s[%d%d]" % (tag, hc, hk), {"max": m[0], "t0": m[1] / unit_, "out": m[2] / unit_, "hasControl": m[3], "unit": unit_}))
     clean = [[{k: e[k] for k in mfcheck.TRACE_KEYS} if "exception" not in e else dict(mfcheck.BAD_EVENT) for e in t] for t in traces]
     verdicts, tres = trace.validate("MF_Trace", clean)
     ntrav = 0
@@ -162,7 +191,7 @@ def decimal_part(ctx):
             back = e.get("dir") == -1
             ctx.violation("%s:decimal-steps:%s" % (side.split("[")[0], "backward" if back else "forward"),
                           "%s max_dt=%s: travel %s -> %s issued steps %s (PlanOK rejects: direction / bound / sum within 1e-9 s)" %
-                          (side, s["max"] * unit, e.get("start"), e.get("target"), e.get("dts", e.get("exception"))), {"scenario": s, "travel": e, "unit": unit})
+                          (side, s["max"] * s.get("unit", unit), e.get("start"), e.get("target"), e.get("dts", e.get("exception"))), {"scenario": s, "travel": e, "unit": s.get("unit", unit)})
     return {"histories": len(scns), "traces": len(traces), "travels_validated": ntrav, "unit_s": unit, "max_dt_s": [0.01, 0.05, 0.1, 0.3]}
 
 
